@@ -1,5 +1,5 @@
 From Coq Require Import Extraction ExtrOcamlBasic QArith.
-From BCT Require Import Model.Nbs.
+From BCT Require Import Model.Nbs Model.NbsApi.
 Extraction Language OCaml.
 (* coqc runs with cwd = /verif/coq *)
-Extraction "../ocaml/gen/c19_model.ml" run_nbs run_supra Qred Z.add.
+Extraction "../ocaml/gen/c19_model.ml" run_nbs run_nbs_full run_supra Qred Z.add.
